@@ -349,9 +349,11 @@ pub fn tamper_case(ctx: &mut Ctx, case: &Case, rec: &Rec, honest: MockRun, budge
             _ => continue,
         };
         let class = classes.class_of(col, row);
-        let class_ok = class.iter().all(|(key, r)| {
+        let class_adv = class.iter().all(|(key, _)| key.starts_with('a'));
+        let class_in_op = class.iter().all(|(key, r)| {
             key.starts_with('a') && region_of(key, *r).map(|x| x >= first_region).unwrap_or(false)
         });
+        let class_ok = class_adv;
         let mut faults = fault_values(v, &mut rng);
         faults.shuffle(&mut rng);
         for (fname, fv) in faults {
@@ -380,7 +382,30 @@ pub fn tamper_case(ctx: &mut Ctx, case: &Case, rec: &Rec, honest: MockRun, budge
                     &format!("check {hdr} ; {}", advice_line(rec, &prover)),
                     if verdict { "1" } else { "0" },
                 );
-                if verdict && case.deterministic {
+                if verdict {
+                    // typed variables and assertions must hold on whatever the accepted table holds
+                    let table_vals: Vec<Option<F>> = var_cells
+                        .iter()
+                        .zip(honest_vals.iter())
+                        .map(|(vc, hv)| match vc {
+                            Some((c, r)) => match prover.advice()[*c][*r] {
+                                CellValue::Assigned(x) => Some(x),
+                                _ => *hv,
+                            },
+                            None => *hv,
+                        })
+                        .collect();
+                    let types: Vec<String> = honest.outcome.vars.iter().map(|v| v.0.clone()).collect();
+                    if let Some(why) = semantic_violation(case, &table_vals, &types) {
+                        ctx.oracle_fail(
+                            &format!("forged-meaning:{}:{k}.{o}.a{c}:{mode}", case.header()),
+                            "MockProver accepts a forged advice table that violates the type of a variable or an asserted relation",
+                            json!({"case": case_key(case), "cell": format!("{k}.{o}.a{c}"), "mode": mode,
+                                   "fault": fname, "honest": fe_hex(&v), "forged": fe_hex(&fv), "why": why}),
+                        );
+                    }
+                }
+                if verdict && case.deterministic && (mode == "cell" || class_in_op) {
                     // outputs as the forged table holds them
                     let changed: Vec<usize> = var_cells
                         .iter()
@@ -406,6 +431,175 @@ pub fn tamper_case(ctx: &mut Ctx, case: &Case, rec: &Rec, honest: MockRun, budge
                 }
                 for ((c2, r2), sv) in group.iter().zip(saved) {
                     prover.verif_advice_mut()[*c2][*r2] = sv;
+                }
+            }
+        }
+    }
+}
+
+/// Meaning of typed variables and of assertion operations, evaluated on the values a (forged)
+/// table holds: an accepted table must respect them. Returns a description of the first
+/// violated one.
+fn semantic_violation(case: &Case, vals: &[Option<F>], types: &[String]) -> Option<String> {
+    use crate::prog::Arg;
+    let big = |i: usize| vals.get(i).copied().flatten().map(|v| mzkh::fe_big(&v));
+    let two = num_bigint::BigUint::from(2u8);
+    for (i, ty) in types.iter().enumerate() {
+        let Some(v) = big(i) else { continue };
+        let bound = match ty.as_str() {
+            "B" => Some(two.clone()),
+            "Y" => Some(num_bigint::BigUint::from(256u32)),
+            t if t.starts_with('D') => t[1..].parse::<u32>().ok().map(|n| two.pow(n)),
+            _ => None,
+        };
+        if let Some(b) = bound {
+            if v >= b {
+                return Some(format!("variable {i} of type {ty} holds {}", mzkh::big_hex(&v)));
+            }
+        }
+    }
+    let var = |a: &Arg| match a {
+        Arg::V(i) => big(*i),
+        _ => None,
+    };
+    for o in &case.ops {
+        let a = &o.args;
+        let bad = match o.name {
+            "aeq" | "baeq" => matches!((var(&a[0]), var(&a[1])), (Some(x), Some(y)) if x != y),
+            "aneq" | "baneq" => matches!((var(&a[0]), var(&a[1])), (Some(x), Some(y)) if x == y),
+            "aeqf" => match (&a[1], var(&a[0])) {
+                (Arg::C(c), Some(x)) => x != mzkh::fe_big(c),
+                _ => false,
+            },
+            "aneqf" => match (&a[1], var(&a[0])) {
+                (Arg::C(c), Some(x)) => x == mzkh::fe_big(c),
+                _ => false,
+            },
+            "az" => matches!(var(&a[0]), Some(x) if x != num_bigint::BigUint::from(0u8)),
+            "anz" => matches!(var(&a[0]), Some(x) if x == num_bigint::BigUint::from(0u8)),
+            "alf" => match (&a[1], var(&a[0])) {
+                (Arg::Big(b), Some(x)) => x >= *b,
+                _ => false,
+            },
+            "asltp2" => match (&a[1], var(&a[0])) {
+                (Arg::N(k), Some(x)) => x >= two.pow(*k as u32),
+                _ => false,
+            },
+            "rc" => match (&a[0], &a[1]) {
+                (Arg::Vs(l), Arg::N(k)) => {
+                    l.iter().any(|i| matches!(big(*i), Some(x) if x >= two.pow(*k as u32)))
+                }
+                _ => false,
+            },
+            _ => false,
+        };
+        if bad {
+            return Some(format!("assertion `{}` does not hold on the accepted values", o.render()));
+        }
+    }
+    None
+}
+
+/// Pairs of cells inside one region of the operation under test, each written together with
+/// its copy class, small fault set on both (search tier): finds forgeries that need a hint and
+/// the value it justifies to move together (e.g. `aux` and `res` of the equality tests).
+pub fn pair_search(ctx: &mut Ctx, case: &Case, rec: &Rec, honest: MockRun, budget: usize) {
+    use ff::Field;
+    let Some(mut prover) = honest.prover else { return };
+    let prefix = Case { ops: case.ops[..case.first_op].to_vec(), inputs: case.inputs.clone(), ..case.clone() };
+    let Some(first_region) = record_prefix(&prefix) else { return };
+    let n_in = nb_input_vars(case);
+    let cells = rec.advice_cells();
+    let mut classes = Classes::new(rec);
+    let canon = rec.canon();
+    let honest_vals: Vec<Option<F>> = honest.outcome.vars.iter().map(|v| v.4).collect();
+    let types: Vec<String> = honest.outcome.vars.iter().map(|v| v.0.clone()).collect();
+    let var_cells: Vec<Option<(usize, usize)>> = honest
+        .outcome
+        .vars
+        .iter()
+        .map(|(_, k, o, key, _)| {
+            if !key.starts_with('a') {
+                return None;
+            }
+            let col: usize = key[1..].parse().unwrap();
+            rec.regions.get(*k).map(|r| (col, r.start + *o))
+        })
+        .collect();
+    let mut done = 0usize;
+    let small = |v: F| vec![F::ZERO, F::ONE, F::ONE - v, v + F::ONE, v - F::ONE, -v];
+    let mut by_region: std::collections::BTreeMap<usize, Vec<usize>> = Default::default();
+    for (i, c) in cells.iter().enumerate() {
+        if c.0 .0 >= first_region {
+            by_region.entry(c.0 .0).or_default().push(i);
+        }
+    }
+    for (_, idxs) in by_region {
+        for a in 0..idxs.len() {
+            for b in (a + 1)..idxs.len() {
+                let (ca, cb) = (cells[idxs[a]], cells[idxs[b]]);
+                let group = |classes: &mut Classes, col: usize, row: usize| -> Option<Vec<(usize, usize)>> {
+                    let cl = classes.class_of(col, row);
+                    if !cl.iter().all(|(k, r)| {
+                        k.starts_with('a') && canon.owner.get(&(k.clone(), *r)).map(|x| x.0 >= first_region).unwrap_or(false)
+                    }) {
+                        return None;
+                    }
+                    Some(cl.iter().map(|(k, r)| (k[1..].parse::<usize>().unwrap(), *r)).collect())
+                };
+                let (Some(ga), Some(gb)) = (group(&mut classes, ca.1 .0, ca.1 .1), group(&mut classes, cb.1 .0, cb.1 .1)) else { continue };
+                if ga.iter().any(|x| gb.contains(x)) {
+                    continue;
+                }
+                let (va, vb) = match (prover.advice()[ca.1 .0][ca.1 .1], prover.advice()[cb.1 .0][cb.1 .1]) {
+                    (CellValue::Assigned(x), CellValue::Assigned(y)) => (x, y),
+                    _ => continue,
+                };
+                for fa in small(va) {
+                    for fb in small(vb) {
+                        if (fa == va && fb == vb) || done >= budget {
+                            continue;
+                        }
+                        let all: Vec<((usize, usize), F)> =
+                            ga.iter().map(|c| (*c, fa)).chain(gb.iter().map(|c| (*c, fb))).collect();
+                        let saved: Vec<CellValue<F>> = all.iter().map(|((c, r), _)| prover.advice()[*c][*r]).collect();
+                        for ((c, r), v) in &all {
+                            prover.verif_advice_mut()[*c][*r] = CellValue::Assigned(*v);
+                        }
+                        let verdict = catch(|| prover.verify().is_ok()).unwrap_or(false);
+                        done += 1;
+                        ctx.count(&format!("pair:{}", if verdict { "accepted" } else { "rejected" }));
+                        if verdict {
+                            let table_vals: Vec<Option<F>> = var_cells
+                                .iter()
+                                .zip(honest_vals.iter())
+                                .map(|(vc, hv)| match vc {
+                                    Some((c, r)) => match prover.advice()[*c][*r] {
+                                        CellValue::Assigned(x) => Some(x),
+                                        _ => *hv,
+                                    },
+                                    None => *hv,
+                                })
+                                .collect();
+                            let changed: Vec<usize> = (n_in..table_vals.len())
+                                .filter(|i| table_vals[*i] != honest_vals[*i])
+                                .collect();
+                            let why = semantic_violation(case, &table_vals, &types);
+                            if (case.deterministic && !changed.is_empty()) || why.is_some() {
+                                ctx.oracle_fail(
+                                    &format!("forged-pair:{}:{}.{}.a{}+{}.{}.a{}", case.header(), ca.0 .0, ca.0 .1, ca.0 .2, cb.0 .0, cb.0 .1, cb.0 .2),
+                                    "MockProver accepts a forged advice table (two cells moved together) whose outputs differ from the operation's definition",
+                                    json!({"case": case_key(case),
+                                           "cells": [format!("{}.{}.a{}", ca.0 .0, ca.0 .1, ca.0 .2), format!("{}.{}.a{}", cb.0 .0, cb.0 .1, cb.0 .2)],
+                                           "forged": [fe_hex(&fa), fe_hex(&fb)], "honest": [fe_hex(&va), fe_hex(&vb)],
+                                           "changed_vars": changed, "why": why}),
+                                );
+                            }
+                        }
+                        for (((c, r), _), sv) in all.iter().zip(saved) {
+                            prover.verif_advice_mut()[*c][*r] = sv;
+                        }
+                    }
                 }
             }
         }
@@ -499,11 +693,21 @@ pub fn attack_divrem(ctx: &mut Ctx) {
 
 pub fn run(ctx: &mut Ctx) {
     attack_divrem(ctx);
+    // hypothesis `OptOK` of the range-check theorems, for every bit length of every configuration
+    // used below (the real chips are then exercised on these configurations)
+    for p in gen::configs(ctx) {
+        ctx.case("optok", true, &format!("optok {} {}", p.nr_cols, p.max_bit_len), "1");
+    }
     let cases = gen::cases(ctx);
     let budget = if ctx.quick() { 6 } else if ctx.thorough() { 40 } else { 200 };
     for case in &cases {
         let Some((rec, _out)) = run_case(ctx, case, true) else { continue };
         let Some(honest) = honest_accept(ctx, case, &rec) else { continue };
         tamper_case(ctx, case, &rec, honest, budget);
+        if !ctx.quick() {
+            if let Some(h2) = honest_accept(ctx, case, &rec) {
+                pair_search(ctx, case, &rec, h2, if ctx.search() { 4000 } else { 300 });
+            }
+        }
     }
 }
